@@ -63,6 +63,12 @@ pub fn window_judgements(p: &Params, out: &Out, r: &RefOut, tol_t: usize, m: f64
                 reference: dd(k).sqr() * var,
                 tol: tq * m * m * (k * k).max(1.0) + slack,
             });
+            // upper is mean + k*sd, lower is mean - k*sd: for k < 0 the "upper" band lies below. The signed
+            // half-width must carry the sign of k (rounding cannot flip it: x + d >= x - d for d >= 0).
+            if !raw.is_nan() && raw.is_finite() {
+                let signed = hw.to_f64() * if k < 0.0 { -1.0 } else { 1.0 };
+                res.push(Judged { name: "band_orientation", component: 1, transform: "halfwidth", got_raw: raw, got: dd(signed), reference: dd(hw.to_f64().abs()), tol: 0.0 });
+            }
             // the bands must be centred on the average: (upper+lower)/2 == average within formation rounding
             let mid = (dd(up) + dd(lo)) / dd(2.0);
             res.push(Judged { name: "centre", component: 1, transform: "mid", got_raw: raw, got: mid, reference: r.v[0], tol: tq * m + delta });
